@@ -122,6 +122,10 @@ def cases(tier, seed):
     for m in list(rt.collision_models()) + [x for x in sp.structures_upto(3, star=True) if any(b == -1 for (_p, _a, b, _k) in sh.relations(x))]:
         for w in WRITERS:
             yield ('W', w, m)
+    # the interpreter's recursion limit is part of the environment too: deep models written under two limits
+    for w in WRITERS:
+        for depth in (300, 920):
+            yield ('RL', w, depth)
     seeds = SEEDS[tier]
     locs = QUICK_LOCALES if tier == 'quick' else tuple(LOCALES)
     rot = seed % len(seeds)
@@ -150,10 +154,14 @@ def plan(tier):
 def describe(case):
     if case[0] == 'W':
         return 'W:%s | %s' % (case[1], sh.model_str(case[2]))
+    if case[0] == 'RL':
+        return 'RL:%s, chain of %d with two side trees, recursion limits default / 30000' % (case[1], case[2])
     return 'ENV:%s seed=%s locale=%s battery=%s' % tuple(case[1:5])
 
 
 def reduce(case):
+    if case[0] == 'RL':
+        return
     if case[0] == 'W':
         for m in sh.reductions(case[2], sp.NAME_POOL):
             yield ('W', case[1], m)
@@ -175,6 +183,44 @@ def _content(path, ret):
         return data, data.decode('utf8') == ret
     except UnicodeDecodeError:
         return data, False
+
+
+def _check_recursion_limit(wname, depth):
+    """A chain of `depth` mandatory features with a second and third sub-tree at the top, written under the
+    default recursion limit and under a much higher one: same bytes (a writer that runs out of stack
+    under the default limit is not judged)."""
+    from flamapy.metamodels.fm_metamodel.models import Feature, FeatureModel, Relation
+
+    def build_deep():
+        feats = [Feature('N%d' % i, []) for i in range(depth)]
+        for i in range(depth - 1):
+            feats[i].add_relation(Relation(feats[i], [feats[i + 1]], 1, 1))
+        for tag in ('Ya', 'Xb'):
+            side = Feature(tag, [])
+            side.add_relation(Relation(side, [Feature(tag + '1', []), Feature(tag + '2', [])], 1, 1))
+            feats[0].add_relation(Relation(feats[0], [side], 0, 1))
+        return FeatureModel(feats[0], [])
+    W = WRITERS[wname]
+    path = engine.tmppath('c12rl.' + wname)
+    outs = []
+    old = sys.getrecursionlimit()
+    try:
+        for limit in (old, 30000):
+            sys.setrecursionlimit(limit)
+            try:
+                ret = W(path, build_deep()).transform()
+                outs.append(_content(path, ret)[0])
+            except RecursionError:
+                outs.append(None)
+            except Exception:  # noqa: BLE001   a writer that cannot express the model
+                return []
+            engine.tick()
+    finally:
+        sys.setrecursionlimit(old)
+    if outs[0] is not None and outs[1] is not None and outs[0] != outs[1]:
+        return [Fail('output-depends-on-recursion-limit:' + wname, {'depth': depth})]
+    engine.validated()
+    return []
 
 
 def _check_writer(wname, model):
@@ -387,6 +433,8 @@ def _check_env_uncached(writer, seed, loc, size):
 def check(case):
     if case[0] == 'W':
         return _check_writer(case[1], case[2])
+    if case[0] == 'RL':
+        return _check_recursion_limit(case[1], case[2])
     out, _got = _check_env(case[1], case[2], case[3], case[4])
     return out
 
@@ -394,5 +442,7 @@ def check(case):
 def outcome(case):
     if case[0] == 'W':
         return 'W:' + case[1]
+    if case[0] == 'RL':
+        return 'RL'
     _out, got = _check_env(case[1], case[2], case[3], case[4])
     return 'ENV-order:' + str(got['probe_order'])
